@@ -17,7 +17,7 @@ LEVEL = "exploration"
 RULE = (
     "generated projects without externals inside what run_inline documents (module-level test_* functions, no "
     "fixtures / parametrize): 1-2 files, 1-4 sites per file over all five operations with noisy previous "
-    "values or none, asserting bodies (failing tests abort), tests that raise, values needing HasRepr, and "
+    "values or none, asserting bodies (failing tests abort), tests that raise or fail before / after the other tests of their file, values needing HasRepr, and "
     "fix+trim pending inside one container; every category subset F. Three-way differential: "
     "Example(files).run_inline(['--inline-snapshot=F']), Example(files).run_pytest(['--inline-snapshot=F']) and a "
     "real `python -m pytest --inline-snapshot=F` session in a directory holding the same files: the changed "
@@ -54,7 +54,9 @@ def _case(draw, tier):
     for _ in range(nfiles):
         prog = draw(gp.program_with_prev(tier, max_sites=4, styles=("assert",), max_leaves=6,
                                          places=("assert", "var", "module", "helper", "lambda")))
-        files.append({"prog": prog, "raise_at_end": draw(st.integers(0, 4)) == 0})
+        files.append({"prog": prog, "raise_at_end": draw(st.integers(0, 4)) == 0,
+                      # a test that fails before every other test of the file runs
+                      "fail_first": draw(st.sampled_from([None, None, "raise", "assert"]))})
     # the helpers promise to be independent of a CI variable in the calling environment
     # a [tool.black] section that changes how fragments are formatted; consecutive cases of one harness
     # process run under different options, like a developer's test suite that calls run_inline for several
@@ -78,6 +80,9 @@ def render(case):
         src, _ = gp.render_program(f["prog"])
         # HasRepr import is what the plugin adds by itself: do not pre-import it here
         src = src.replace("from inline_snapshot import snapshot, HasRepr\n", "from inline_snapshot import snapshot\n", 1)
+        if f.get("fail_first"):
+            stmt = "raise ValueError('first')" if f["fail_first"] == "raise" else "assert 1 == 2"
+            src = src.replace("def test_0():", f"def test_00_fails_first():\n    {stmt}\n\n\ndef test_0():", 1)
         if f["raise_at_end"]:
             src += "\ndef test_zz_raises():\n    raise ValueError('boom')\n"
         out[f"test_f{i}.py"] = src
